@@ -1,4 +1,5 @@
 import WebrtcVerif.Base.Wire
+import WebrtcVerif.Drv.C32
 import WebrtcVerif.Drv.C35
 import WebrtcVerif.Drv.C17
 import WebrtcVerif.Drv.C29
@@ -36,6 +37,7 @@ def runLine (toks : List String) : String :=
   | "C29" :: rest => Drv.C29.run rest
   | "C17" :: rest => Drv.C17.run rest
   | "C35" :: rest => Drv.C35.run rest
+  | "C32" :: rest => Drv.C32.run rest
   | _ => "bad-op"
 
 def judgeLine (toks : List String) : String :=
@@ -56,6 +58,7 @@ def judgeLine (toks : List String) : String :=
   | "C29" :: rest => Drv.C29.judge rest out
   | "C17" :: rest => Drv.C17.judge rest out
   | "C35" :: rest => Drv.C35.judge rest out
+  | "C32" :: rest => Drv.C32.judge rest out
   | _ => "bad-judge"
 
 partial def loop (h : IO.FS.Stream) (out : IO.FS.Stream) (f : List String → String) : IO Unit := do
